@@ -899,10 +899,7 @@ func FromV3SchemaRef(schema *openapi3.SchemaRef, components *openapi3.Components
 	if ref := schema.Ref; ref != "" {
 		name := getParameterNameFromNewRef(ref)
 		if val, ok := components.Schemas[name]; ok {
-			if val.Value.Format == "binary" {
-				v2Ref := strings.Replace(ref, "#/components/schemas/", "#/parameters/", 1)
-				return nil, &openapi2.Parameter{Ref: v2Ref}
-			}
+			// (a string in binary format that is not a form parameter is a schema like any other)
 			if _, ok := val.Value.Extensions["x-formData-name"].(string); ok {
 				v2Ref := strings.Replace(ref, "#/components/schemas/", "#/parameters/", 1)
 				return nil, &openapi2.Parameter{Ref: v2Ref}
@@ -918,7 +915,7 @@ func FromV3SchemaRef(schema *openapi3.SchemaRef, components *openapi3.Components
 	}
 
 	if schema.Value != nil {
-		if schema.Value.Type.Is("string") && schema.Value.Format == "binary" {
+		if _, isFormParameter := schema.Value.Extensions["x-formData-name"].(string); isFormParameter && schema.Value.Type.Is("string") && schema.Value.Format == "binary" {
 			paramType := &openapi3.Types{"file"}
 			required := false
 
@@ -1336,6 +1333,10 @@ func FromV3Response(ref *openapi3.ResponseRef, components *openapi3.Components) 
 		}
 		if ct != nil && ct.Schema != nil {
 			result.Schema, _ = FromV3SchemaRef(ct.Schema, components)
+			if v2Schema := result.Schema; v2Schema != nil && v2Schema.Value != nil && v2Schema.Value.Type.Is("string") && v2Schema.Value.Format == "binary" {
+				// a response that is a file
+				v2Schema.Value.Type, v2Schema.Value.Format = &openapi3.Types{"file"}, ""
+			}
 		}
 	}
 	if headers := response.Headers; len(headers) > 0 {
